@@ -277,6 +277,9 @@ static void cmd_lb(char** t, int n) {
 static void cmd_mapinit(char** t, int n) { (void)n; { int lg = zv_map_init_log((unsigned)strtoul(t[1], 0, 10)); if (lg < 0) printf("ERR\n"); else printf("%d\n", lg); } }
 static void cmd_maphash(char** t, int n) { (void)n; printf("%u\n", zv_map_hash((unsigned)strtoul(t[1], 0, 10), (unsigned)strtoul(t[2], 0, 10))); }
 
+/* oc dictSize : offcodeMax of the real ZDICT_analyzeEntropy */
+static void cmd_oc(char** t, int n) { (void)n; { int m = zv_offcode_max(strtoull(t[1], 0, 10)); if (m == -1) printf("TOOLARGE\n"); else if (m < 0) printf("HARNESS\n"); else printf("OK %d\n", m); } }
+
 static void dispatch(char** t, int n) {
     if (!strcmp(t[0], "chk") && n == 6) cmd_chk(t, n);
     else if (!strcmp(t[0], "fchk") && n == 8) cmd_fchk(t, n);
@@ -293,6 +296,7 @@ static void dispatch(char** t, int n) {
     else if (!strcmp(t[0], "lb") && n == 5) cmd_lb(t, n);
     else if (!strcmp(t[0], "mapinit") && n == 2) cmd_mapinit(t, n);
     else if (!strcmp(t[0], "maphash") && n == 3) cmd_maphash(t, n);
+    else if (!strcmp(t[0], "oc") && n == 2) cmd_oc(t, n);
     else printf("BADCASE\n");
 }
 
